@@ -1129,7 +1129,8 @@ func Run(tier, replay string) {
 	rep.Extra["tlc_states_design"] = t.Distinct
 	t.Cleanup()
 	// the code as implemented, in the model: TLC must find the C08 counterexample
-	t = mbt.MustTLC(mbt.TLCOpts{Spec: "NumberingGen", Cfg: "NumberingGen.cfg", Workers: 4,
+	// (one worker: strict breadth-first search, so the counterexample reported is a shortest one)
+	t = mbt.MustTLC(mbt.TLCOpts{Spec: "NumberingGen", Cfg: "NumberingGen.cfg", Workers: 1,
 		Consts: map[string]string{"ValidateOnPrint": "TRUE", "Kinds": `{"mod"}`}})
 	if len(t.Violated) != 1 || t.Violated[0] != "ModParsedTotal" {
 		mbt.Infra("Numbering as implemented (ValidateOnPrint = TRUE) should violate exactly ModParsedTotal, TLC reports %v", t.Violated)
